@@ -78,7 +78,7 @@ PROPS["C12"] = {
 
 PROPS["C07"] = {
     "modules": ["CC.Props.C07"], "campaigns": [hist("C07", BOTH), {"name": "golden", "configs": ONE}], "quick_configs": ONE, "tables": {"consts": "required"},
-    "level_text": "Lean theorem `binding`: from injectivity of the three hashes and fixed block sizes (read from the source), a received value carrying an honest tag that passes the recomputed-tag and trap checks is the honest encapsulation component by component, with the same seed; hence any reordering / dropping / duplication / splice / byte change is rejected; the tie of the hashed inputs and their order to the code is behavioural: encapsulations and user keys serialised by the pinned release must still open with the same secret (golden corpus, run by this check), which any change of what is hashed breaks; the extracted feed order is reported in the evidence (informative). Specification oracle on the real code: every byte position x bit of four encapsulation shapes, every truncation, every structural operator, authorised and unauthorised keys: never a secret",
+    "level_text": "Lean theorem `binding`: from injectivity of the three hashes and fixed block sizes (read from the source), a received value carrying an honest tag that passes the recomputed-tag and trap checks is the honest encapsulation component by component, with the same seed; hence any reordering / dropping / duplication / splice / byte change is rejected; the tie of the hashed inputs and their order to the code is behavioural: encapsulations and user keys serialised by the pinned release must still open with the same secret (golden corpus, run by this check), which any change of what is hashed breaks; the extracted feed order is reported in the evidence (informative). Specification oracle on the real code: every byte position x bit of four encapsulation shapes, every truncation, every structural operator, authorised and unauthorised keys: never a secret; the statement at the level of bytes is disproved (D15, known finding): noncanonical_leb_accepted / encapsulation_bytes_malleable exhibit two serialisations of one encapsulation, replayed on the implementation by the `noncanon` operator",
     "level_note": "SHA3-256/384 idealised as injective (hypotheses of the theorem, not axioms); tag forgery excluded (2^-128); AEAD idealised for the PKE / header part; the golden corpus was produced by the pinned release",
 }
 
